@@ -8,8 +8,10 @@ from harness.sexp import A, dumps, loads_all
 PID = 'C06'
 PROPS_MODULE = 'SympdeModel.Props.C06'
 RULE = ('random bilinear forms, linear forms and functionals over scalar, vector and product spaces (1-3 arguments, '
-        'dimension 2 and 3), sums of domain and boundary integrals, unions of faces, two-patch domains, coefficient fields '
-        'and constants, plus vanishing forms; a case is one form; the monomials of each lowered region integrand are tagged '
+        'dimension 2 and 3; square and rectangular block systems, down to one row or one column), sums of domain and '
+        'boundary integrals written as plain sums, as differences and as accumulations starting from 0, unions of faces, '
+        'two-patch domains, coefficient fields and constants, plus vanishing forms and a fixed corpus of such forms; a case '
+        'is one form; the monomials of each lowered region integrand are tagged '
         'with their test / trial component and sent to the model; non-trivial = at least 2 regions or at least 2 blocks; '
         'distinct by printed form')
 ASSUMPTIONS = [
@@ -143,6 +145,13 @@ def gen_form(rng, w):
     idx = rng.sample(range(len(pool_t)), min(nu, len(pool_t)))
     tests = [pool_t[i] for i in idx]
     trials = [pool_u[i] for i in idx]
+    if kind == 'bilinear' and rng.random() < 0.4:
+        # rectangular block systems: the trial functions are chosen independently of the test functions, so the
+        # kernel has nt x nu entries with nt != nu, down to a single row or a single column (added after seeded
+        # change C06-7, which collapsed the 1 x n row of a form with one scalar test function)
+        trials = [pool_u[i] for i in rng.sample(range(len(pool_u)), rng.choice([1, 2, 2, 3]))]
+        if rng.random() < 0.5:
+            tests = [rng.choice(w.sv)]
     nint = 1 if kind == 'functional' else rng.choice([1, 1, 2, 3])   # Functional(expr, domain) has one domain
     ints = []
     zero = rng.random() < 0.06
@@ -172,7 +181,7 @@ def gen_form(rng, w):
         if kind == 'bilinear':
             z0 = rng.choice([tr for tr in trials if not isinstance(tr, w.m['VectorFunction'])] or [w.fields[0]]) * z0
         ints = [(reg, coef(rng, w) * z0) for reg, _ in ints if not (w.I is not None and reg is w.I)] or [(w.domain, z0)]
-        return kind, tests, trials, ints
+        return kind, tests, trials, ints, None
     if w.I is not None and kind == 'bilinear' and not zero and rng.random() < 0.5:
         # an interface integral whose same-side pieces land on the two side faces, together with explicit boundary
         # integrals on those faces (added after seeded change C06-2, which lost the explicit term)
@@ -184,12 +193,50 @@ def gen_form(rng, w):
             ints.append((w.I, w.csts[0] * jump(u0) * jump(v0)))
             for fc in rng.sample(w.side_faces, rng.choice([1, 2])):
                 ints.append((fc, coef(rng, w) * u0 * v0))
-    return kind, tests, trials, ints
+    return kind, tests, trials, ints, gen_style(rng, kind, len(ints))
 
 
-def build(w, kind, tests, trials, ints):
+STARTS = {'first': None, 'int0': 0, 'Zero': S.Zero}
+
+
+def gen_style(rng, kind, nint):
+    """how the sum of integrals is written down: None = I1 + I2 + ... (the plain sum), otherwise the value the
+    accumulation starts from ('first' = the first integral itself, 'int0' = the number 0, 'Zero' = sympy's zero) and,
+    per integral, whether it is added or subtracted (a subtracted integral is written with the opposite integrand,
+    so the form that is meant, and hence the expected table of region integrands, does not depend on the style).
+    Added after seeded change C06-8 (`0 - integral` kept its sign): every generated form was a plain sum"""
+    if kind == 'functional' or rng.random() < 0.6:
+        return None
+    return (rng.choice(['first', 'int0', 'int0', 'Zero']), tuple(rng.choice('+-') for _ in range(nint)))
+
+
+def written(ints, style):
+    """the form as it is written: [(op, region, integrand as written)]"""
+    if style is None:
+        return [('+', r, e) for r, e in ints]
+    return [(op, r, e if op == '+' else -e) for op, (r, e) in zip(style[1], ints)]
+
+
+def describe(ints, style):
+    if style is None:
+        return ' + '.join('int(%s, %s)' % (r, e) for r, e in ints)
+    head = {'first': '', 'int0': '0 ', 'Zero': 'S.Zero '}[style[0]]
+    return (head + ' '.join('%s int(%s, %s)' % (op, r, e) for op, r, e in written(ints, style))).strip()
+
+
+def build(w, kind, tests, trials, ints, style=None):
     m = w.m
-    expr = sum((m['integral'](r, e) for r, e in ints[1:]), m['integral'](*ints[0]))
+    if style is None or kind == 'functional':
+        expr = sum((m['integral'](r, e) for r, e in ints[1:]), m['integral'](*ints[0]))
+    else:
+        terms = written(ints, style)
+        expr = STARTS[style[0]]
+        for op, r, e in terms:
+            I = m['integral'](r, e)
+            if expr is None:
+                expr = I if op == '+' else -I          # the sum starts with its first integral (possibly negated)
+            else:
+                expr = expr + I if op == '+' else expr - I
     tv = tests[0] if len(tests) == 1 else tuple(tests)
     uv = trials[0] if len(trials) == 1 else tuple(trials)
     if kind == 'bilinear':
@@ -235,13 +282,13 @@ def lower_kernels(w, form):
     return ks
 
 
-def analyse(ctx, w, kind, tests, trials, ints, c, o):
+def analyse(ctx, w, kind, tests, trials, ints, c, o, style=None, label=None):
     """runs the real lowering once and feeds both the correspondence (c) and the oracle (o)"""
     m = w.m
-    name = '%s tests=%s trials=%s %s' % (kind, tests, trials if kind == 'bilinear' else '-',
-                                         ' + '.join('int(%s, %s)' % (r, e) for r, e in ints))
+    name = '%s%s tests=%s trials=%s %s' % (label + ' ' if label else '', kind, tests, trials if kind == 'bilinear' else '-',
+                                           describe(ints, style))
     try:
-        form = build(w, kind, tests, trials, ints)
+        form = build(w, kind, tests, trials, ints, style)
     except Exception as ex:
         if o is not None:
             o.count('construction-refused:' + type(ex).__name__)
@@ -305,6 +352,59 @@ def analyse(ctx, w, kind, tests, trials, ints, c, o):
     return name, ks, ft, fu, exp, got
 
 
+def fixed_corpus(world):
+    """fixed cases with stable keys: [(label, world, kind, tests, trials, ints, style)]; `ints` is the table of the
+    integrals that are MEANT, `style` the way their sum is written (see gen_style)"""
+    from sympde.calculus import jump
+    out = []
+    w2, w3, wt = world(2, False), world(3, False), world(2, True)
+    for w, d in ((w2, '2d'), (w3, '3d'), (wt, '2p')):
+        m = w.m
+        dot, div, grad, inner = m['dot'], m['div'], m['grad'], m['inner']
+        (u, p), (v, q), (U,), (Vt,) = w.su, w.sv, w.vu, w.vv
+        (f, g), (cc, kk), Fb, nn, x = w.fields, w.csts, w.vfield, w.nn, w.coords[0]
+        D, G1, G2 = w.domain, w.faces[0], w.faces[-1]
+        GG = m['Union'](w.faces[0], w.faces[1])
+
+        def add(key, kind, tests, trials, ints, style=None):
+            out.append(('corpus:%s-%s' % (key, d), w, kind, tests, trials, ints, style))
+        # ---- rectangular block systems (one row, one column, 2 x 3): added after seeded change C06-7
+        add('rect-1xn-div', 'bilinear', [q], [U, p], [(D, div(U) * q + 3 * p * q), (G1, dot(U, nn) * q)])
+        add('rect-nx1-div', 'bilinear', [Vt, q], [p], [(D, div(Vt) * p + 3 * p * q), (G1, dot(Vt, nn) * p)])
+        add('rect-1x2-scalars', 'bilinear', [v], [u, p], [(D, u * v + cc * f * p * v + dot(grad(p), grad(v))), (GG, g * u * v)])
+        add('rect-2x1-scalars', 'bilinear', [v, q], [u], [(D, u * v + cc * f * u * q + dot(grad(u), grad(q))), (GG, g * u * q)])
+        add('rect-1xdim-vector-trial', 'bilinear', [v], [U], [(D, dot(U, grad(v)) + x * dot(Fb, U) * v), (G2, kk * dot(U, nn) * v)])
+        add('rect-dimx1-vector-test', 'bilinear', [Vt], [u], [(D, dot(Vt, grad(u)) + x * dot(Fb, Vt) * u), (G2, kk * dot(Vt, nn) * u)])
+        add('rect-2xn', 'bilinear', [v, q], [U, u, p], [(D, div(U) * v + u * q + 2 * p * v + f * dot(Fb, U) * q), (G1, p * q)])
+        add('rect-nx2', 'bilinear', [Vt, v, q], [u, p], [(D, div(Vt) * u + p * v + 2 * u * q + f * dot(Fb, Vt) * p), (G1, p * q)])
+        add('square-1x1', 'bilinear', [v], [u], [(D, 3 * u * v), (G1, u * v)])
+        add('linear-one-test', 'linear', [v], [u], [(D, f * v + dot(Fb, grad(v))), (G1, g * v)])
+        # ---- ways of writing the sum of integrals (accumulation from 0, differences, a negated first integral):
+        # added after seeded change C06-8
+        three = [(G1, -2 * u * v), (G2, -3 * u * v), (D, u * v)]
+        add('acc0-minus-minus-plus', 'bilinear', [v], [u], three, ('int0', ('-', '-', '+')))
+        add('accZero-minus-minus-plus', 'bilinear', [v], [u], three, ('Zero', ('-', '-', '+')))
+        add('acc0-plus-plus-plus', 'bilinear', [v], [u], three, ('int0', ('+', '+', '+')))
+        add('first-minus-minus', 'bilinear', [v], [u], three[::-1], ('first', ('+', '-', '-')))
+        add('negated-first', 'bilinear', [v], [u], three, ('first', ('-', '+', '+')))
+        add('acc0-minus-domain-first', 'bilinear', [v], [u], [(D, -f * u * v), (G1, u * v)], ('int0', ('-', '+')))
+        add('acc0-minus-union-first', 'bilinear', [v], [u], [(GG, -f * u * v), (D, u * v)], ('int0', ('-', '+')))
+        add('acc0-minus-single', 'bilinear', [v], [u], [(G1, -cc * u * v)], ('int0', ('-',)))
+        add('acc0-minus-same-face-twice', 'bilinear', [v], [u], [(G1, -2 * u * v), (G1, -f * u * v), (D, u * v)],
+            ('int0', ('-', '-', '+')))
+        add('accZero-minus-linear', 'linear', [v], [u], [(G1, -g * v), (D, x * f * v)], ('Zero', ('-', '+')))
+        add('acc0-minus-linear-vector', 'linear', [Vt], [U], [(G2, -g * dot(Vt, nn)), (D, dot(Fb, Vt) + f * div(Vt))],
+            ('int0', ('-', '+')))
+        add('acc0-minus-system', 'bilinear', [Vt, q], [U, p],
+            [(G1, -dot(U, nn) * q), (D, inner(grad(U), grad(Vt)) - p * div(Vt) + q * div(U))], ('int0', ('-', '+')))
+        if w.I is not None:
+            add('acc0-minus-interface-first', 'bilinear', [v], [u], [(w.I, -cc * jump(u) * jump(v)), (D, u * v)],
+                ('int0', ('-', '+')))
+            add('acc0-minus-side-face-first', 'bilinear', [v], [u],
+                [(w.side_faces[0], -f * u * v), (w.I, cc * jump(u) * jump(v)), (D, u * v)], ('int0', ('-', '+', '+')))
+    return out
+
+
 def entries(M, nt, nu):
     if isinstance(M, sympy.MatrixBase):
         return [[M[i, j] for j in range(M.shape[1])] for i in range(M.shape[0])]
@@ -314,17 +414,27 @@ def entries(M, nt, nu):
 def run(ctx, n, c, o):
     rng = ctx.rng
     worlds = {}
+
+    def world(dim, two):
+        if (dim, two) not in worlds:
+            worlds[(dim, two)] = World(rng, dim, 'f', two_patch=two)
+        return worlds[(dim, two)]
+
+    def cases():
+        for case in fixed_corpus(world):
+            yield case
+        for it in range(n):
+            dim = rng.choice([2, 2, 3])
+            two = rng.random() < 0.25
+            w_ = world(dim, two)
+            yield (None, w_) + tuple(gen_form(rng, w_))
+
     lines, payload = [], []
-    for it in range(n):
-        dim = rng.choice([2, 2, 3])
-        two = rng.random() < 0.25
-        key = (dim, two)
-        if key not in worlds:
-            worlds[key] = World(rng, dim, 'f', two_patch=two)
-        w = worlds[key]
+    for label, w, kind, tests, trials, ints, style in cases():
         m = w.m
-        kind, tests, trials, ints = gen_form(rng, w)
-        res = analyse(ctx, w, kind, tests, trials, ints, c, o)
+        res = analyse(ctx, w, kind, tests, trials, ints, c, o, style=style, label=label)
+        if label is not None:
+            (o if o is not None else c).count('corpus')
         if res is None:
             continue
         name, ks, ft, fu, exp, got = res
@@ -418,6 +528,11 @@ def run(ctx, n, c, o):
         name, r, monos, rows, nt, nu = pl
         c.count('blocks:%dx%d' % (nt, nu))
         ok = True
+        if len(rows) != nt or any(len(row) != nu for row in rows):
+            c.disagreements.append({'input': line[:300], 'impl': 'kernel of shape %dx%d: %s' % (len(rows), len(rows[0]), rows),
+                                    'model': '%dx%d blocks (tests x trials)' % (nt, nu),
+                                    'note': 'shape of the kernel of %s over %s' % (name[:200], r)})
+            continue
         for i in range(nt):
             for j in range(nu):
                 ids = [int(x) for x in res[i][j]]
